@@ -50,6 +50,8 @@ def case_st(draw):
         "comp": comp,
         "n": 1 if comp == "single" else draw(st.integers(1, 6)),
         "preselect": draw(st.one_of(st.none(), st.integers(0, 20))) if comp == "single" else None,
+        # a target left on constituents of a composite before the call (constituent index, pick among the eligible labels)
+        "presub": [] if comp == "single" else draw(st.lists(st.tuples(st.integers(0, 6), st.integers(0, 20)).map(list), max_size=3)),
         "veto": draw(st.lists(st.booleans(), min_size=0, max_size=4)),  # True = veto this attempt
         "max_attempts": draw(st.integers(1, 4)),
         "seed": draw(st.integers(0, 2 ** 32)),
@@ -129,6 +131,11 @@ def run_case(case):
         base.to_displace_labels = pre
     before = atoms.positions.copy()
     labs = ["comp:" + case["comp"], "op:" + case["op"]]
+    subs = list(getattr(move, "moves", []))
+    if case.get("presub") and eligible and subs:
+        for i, pick in case["presub"]:
+            subs[i % len(subs)].to_displace_labels = eligible[pick % len(eligible)]
+        labs.append("constituent-preselected")
     has_neg, has_rep = bool(np.any(labels < 0)), len(set(labels.tolist())) < n_atoms
     noncontig = bool(eligible) and eligible != list(range(len(eligible)))
     try:
